@@ -2,6 +2,7 @@
 from vx import core, v1types
 from vx.props import common
 from vx.units import algebra as al
+from vx.units.instance_ops import linear_single_term as io_single_term
 
 
 def build(asm, tier):
@@ -22,12 +23,13 @@ def build(asm, tier):
     asm.file('spec/fn_algebra.rs')
     asm.raw(al.CONV_SPEC, 'upcast / negation / difference predicates of the macro layer')
     asm.raw(al.LEMMAS, 'algebra lemmas')
+    asm.raw(al.VAR_SPEC, 'variables / parameters as operands')
     asm.raw('} // mod lib\npub mod units {\n' + common.UNITS_USES + 'broadcast use super::lib::ax_default_f64, super::lib::ax_pair_u64_cmp;\n')
     stubs, names = al.leaf_stubs()
     asm.raw(stubs + al.MERGE_STUBS, 'assumed callee contracts (BTreeMap-merge leaves)')
     for n in names:
         asm.stubs.append(dict(unit=n, proved_in=''))
-    for u in al.zero_linear() + al.zero_quadratic_polynomial() + al.from_units() + [al.linear_add_f64(), al.linear_mul_f64(), al.quadratic_add_f64(), al.quadratic_mul_f64(), al.polynomial_mul_f64(), al.function_add(), al.function_mul(), al.linear_add_linear(), al.linear_new(), al.quadratic_add_linear(), al.quadratic_quad_iter(), al.quadratic_from_iter(), al.quadratic_add_quadratic(), al.linear_mul_linear()] + al.macro_units() + al.typed_macro_units():
+    for u in al.zero_linear() + al.zero_quadratic_polynomial() + al.from_units() + [al.linear_add_f64(), al.linear_mul_f64(), al.quadratic_add_f64(), al.quadratic_mul_f64(), al.polynomial_mul_f64(), al.function_add(), al.function_mul(), al.linear_add_linear(), al.linear_new(), al.quadratic_add_linear(), al.quadratic_quad_iter(), al.quadratic_from_iter(), al.quadratic_add_quadratic(), al.linear_mul_linear()] + al.macro_units() + al.typed_macro_units() + [io_single_term()] + al.var_units():
         asm.unit(u)
     asm.raw('} // mod units\n')
     asm.guard(common.guard_fn('c02', '', uses='use super::lib::*;'), 'vacuity: prelude')
